@@ -20,12 +20,15 @@ NOT_APPLICABLE = {}
 HOOK_COMMITS = []
 
 PROPS["C03"] = {
-    "bounds": "names 0..4 ASCII bytes in the quick tier and 0..6 in the thorough tier, literal options 0..1 symbolic bytes, regex/notRegex from an enumerated family of 40 concrete patterns (obligations.py), each as regex and as notRegex; aggregation path and cache: names 0..4 / 1..2 bytes; a route / destination filter with all six options set, up to two of them cleared or replaced at runtime (modRoute / modDest), names 1..3 bytes",
+    "bounds": "names 0..4 ASCII bytes in the quick tier and 0..6 in the thorough tier, literal options 0..1 symbolic bytes, regex/notRegex from an enumerated family of 40 concrete patterns (obligations.py), each as regex and as notRegex; all six options on one filter (prefix / notPrefix 0..2 free bytes, sub / notSub 0..1, two concrete regex / notRegex pairs, names 0..3 bytes); aggregation path and cache: names 0..4 / 1..2 bytes; a route / destination filter with all six options set, up to two of them cleared or replaced at runtime (modRoute / modDest), names 1..3 bytes",
     "outside": "non-ASCII names under regex filters; patterns outside the family",
     "assumptions": ["input bytes < 0x80 when a regex is configured", "regexp.Match modelled as bounded NFA unrolling of the real syntax.Prog"],
     "groups": [
         {"pkg": "matcher", "hdir": "matcher",
-         "specs": [spec("C03/match/literal", "VerifC03Literal")] +
+         "specs": [spec("C03/match/literal", "VerifC03Literal"),
+                   spec("C03/match/all-six-options/regex=/notRegex=^a.*c$", "VerifC03Combined", {"regex": "", "notRegex": "^a.*c$", "maxlen": "xxx"}),
+                   spec("C03/match/all-six-options/regex=^ab/notRegex=c$", "VerifC03Combined", {"regex": "^ab", "notRegex": "c$", "maxlen": "xxx"}),
+                   spec("C03/match/all-six-options/regex=^a(b|c)/notRegex=^ab?c", "VerifC03Combined", {"regex": "^a(b|c)", "notRegex": "^ab?c", "maxlen": "xxxx"}, tier="thorough")] +
                   [spec("C03/match/regex=" + p, "VerifC03Regex", {"regex": p, "notRegex": "", "maxlen": "xxxx"}) for p in C03_PATTERNS_QUICK] +
                   [spec("C03/match/notRegex=" + p, "VerifC03Regex", {"regex": "", "notRegex": p, "maxlen": "xxxx"}) for p in C03_PATTERNS_QUICK] +
                   [spec("C03/match/len<=6/regex=" + p, "VerifC03Regex", {"regex": p, "notRegex": "", "maxlen": "xxxxxx"}, tier="thorough") for p in C03_PATTERNS_QUICK] +
@@ -78,7 +81,7 @@ PROPS["C18"] = {
 }
 
 PROPS["C02"] = {
-    "bounds": "arbitrary ASCII byte strings of 0..5 bytes as the line (quick) and arbitrary bytes (all 256 values) of 0..3 bytes (thorough) x all 3x2 configured validation levels; level names: all spellings of up to 3 bytes plus the documented ones; the same gate with a blacklist entry that matches every name (lines of 0..4 ASCII bytes)",
+    "bounds": "arbitrary ASCII byte strings of 0..5 bytes as the line (quick) and arbitrary bytes (all 256 values) of 0..3 bytes (thorough) x all 3x2 configured validation levels; level names: all spellings of up to 3 bytes plus the documented ones; two to three lines of one series rejected for the same reason in a row (the report shows the latest text after each); the same gate with a blacklist entry that matches every name (lines of 0..4 ASCII bytes)",
     "outside": "numeric spellings accepted by strconv.ParseFloat (modelled: digit strings exactly, everything else an uninterpreted validity predicate); TOML decoding of the level strings; lines longer than the bound",
     "assumptions": ["oracle for 'passes validation' is carbon20.ValidatePacket called by the harness with the levels the harness configured (the gate must use exactly the configured levels)", "strconv.ParseFloat: exact on 1..15 digit strings, uninterpreted otherwise"],
     "groups": [
@@ -87,13 +90,14 @@ PROPS["C02"] = {
             spec("C02/gate/behind-a-blacklist/ascii<=4", "VerifC02Gate", {"ascii": "1", "maxlen": "xxxx", "blacklist": "1"}),
             spec("C02/gate/bytes<=2", "VerifC02Gate", {"ascii": "0", "maxlen": "xx"}, tier="thorough"),
             spec("C02/gate/ascii<=6", "VerifC02Gate", {"ascii": "1", "maxlen": "xxxxxx"}, tier="thorough"),
+            spec("C02/bad-report/latest-text", "VerifC02BadReportLatest"),
             spec("C02/levels", "VerifC02Levels")]},
         {"pkg": "badmetrics", "hdir": "badmetrics", "specs": [spec("C02/bad-report/queue-full", "VerifC02BadQueueFull")]},
     ],
 }
 
 PROPS["C05"] = {
-    "bounds": "buffered writer: buffer size S in 1..3 (thorough 1..5), arbitrary fill and content, one Write of 0..2S+2 symbolic bytes or one Flush from that arbitrary state (one-step induction), underlying writer accepting any prefix per call; connection writer: 1..3 lines of 1..3 symbolic bytes, a flush tick before any line, S in 1..3",
+    "bounds": "buffered writer: buffer size S in 1..3 (thorough 1..5), arbitrary fill and content, one Write of 0..2S+2 symbolic bytes or one Flush from that arbitrary state (one-step induction), underlying writer accepting any prefix per call; connection writer: 1..3 lines of 1..3 symbolic bytes, a flush tick before any line, S in 1..3; an address change (new connection) while the old connection, whose endpoint had stopped reading, still holds 3..4 lines, then 1..2 lines with a free byte for the new connection",
     "outside": "the kernel socket (the stub is the io.Writer contract); pickle encoding content (C16); S beyond the bound (no size-dependent branch other than the comparisons ranged over)",
     "assumptions": ["io.Writer contract for the underlying connection: 0<=n<=len(p), n<len(p) => err!=nil", "go-metrics timers/histograms are no-op shells (Timer.Time still calls its function)"],
     "groups": [
@@ -105,6 +109,8 @@ PROPS["C05"] = {
         # "the only lines that may be absent are those counted as dropped because the connection was slow":
         # the composed relay scenario of C06 (healthy / slow-then-reading endpoint: received + slow_conn drops = handed off)
         {"pkg": "destination", "hdir": "destination", "native_optional": True, "specs": [spec("C05/relay/received-or-counted", "VerifC06Steady")]},
+        # a new connection (address changed at runtime) while the old one still holds lines: each connection's stream is its own
+        {"pkg": "destination", "hdir": "destination", "native_optional": True, "specs": [spec("C05/relay/address-change-while-old-connection-holds-lines", "VerifC05AddrUpdate")]},
     ],
 }
 
